@@ -83,6 +83,9 @@ class Schema:
                                 consts.append(inner[j + 1]['v'])
                         self.flags[f'{prefix}::{name}'] = consts
                         name = None
+            elif it['k'] == 'Const' and (it.get('expr') or {}).get('k') == 'Lit' and it.get('vis', 'pub').startswith('pub'):
+                # public literal constants of the library (`pub const BOOL_WIDTH: Bytes = 1;`): a crate that names one means that value
+                self.__dict__.setdefault('consts', {})[f"{prefix}::{it['name']}"] = it['expr']
             elif it['k'] == 'Mod' and it.get('items'):
                 self._collect(prefix, it['items'])
 
